@@ -10,10 +10,16 @@ CONSTANTS
   PeerBytes = 1
   MaxRcut = 1
   AllowClose = TRUE
+  Chunk = 3
+  RecMax = 3
+  AllowCb = FALSE
   Dev_PartialTailToBack = FALSE
   Dev_KeepWrittenPrefix = FALSE
   Dev_NoRearmAfterShortSend = FALSE
   Dev_StopReadAfterShort = FALSE
+  Dev_LtStopsAfterOneChunk = FALSE
+  Dev_IoSendBypassesQueue = FALSE
+  Dev_DirectWriteIgnoresQueue = FALSE
 INVARIANT Inv_Stream
 INVARIANT Inv_WirePrefix
 INVARIANT Inv_Read
